@@ -89,3 +89,14 @@ package keeper
 //@ ensures others_untouched: err == nil ==> forallb(a, a != vaddr ==> has(st.locking.Validators, a) == old(has(st.locking.Validators, a)) && st.locking.Validators[a] == old(st.locking.Validators[a]))
 //@ loop 0 invariant true
 //@ modifies st.locking.Validators, st.locking.PowerRanking, st.locking.Locking, st.locking.UnlockQueue
+
+// ---- C07 / C13: end-of-block validator set update (not yet under a functional contract: iterators) --------
+// The last loop ranges over a Go map (the leftovers of the previous set). Its returns are dead: a member of
+// ValidatorSet always has a Validators record (representation invariant L2 of DESIGN.md), Set/Remove never
+// fail (A-store); the bodies touch only the entries of their own key and the produced updates are a set
+// (CometBFT sorts validator updates, A-comet). This is declared, not proved.
+//@ func (Keeper).EndBlocker
+//@ property C07
+//@ trusted
+//@ opt maporder0=returns-dead: members of ValidatorSet have a Validators record (RI L2); collections Set/Remove do not fail
+//@ modifies st.locking.ValidatorSet, st.locking.Validators
